@@ -421,3 +421,60 @@ def q_enclosing_assign(node):
     from ..ir import enclosing_stmt
     st = enclosing_stmt(node)
     return st if isinstance(st, ast.Assign) else None
+
+
+MEMO = ('lru_cache', 'cache', 'cached_property', 'memoize', 'memoized', 'cached')
+
+
+def _memo_decorators(node):
+    out = []
+    for d in node.decorator_list:
+        t = d.func if isinstance(d, ast.Call) else d
+        nm = (dotted(t) or '').split('.')[-1]
+        if nm in MEMO:
+            out.append(norm(d))
+    return out
+
+
+@rule('C01.h', ['C01', 'C14'], floor=20)
+def world_readers_are_not_memoised(ctx):
+    """No function that reads the outside world - the file system (os.*, open), a file
+    object (read/seek/tell), the clock, or S3 (a client call) - carries a memoising
+    decorator (lru_cache / cache / cached_property ...).  The sizes and bytes of a transfer
+    are discovered through these functions once per transfer; a cached answer is the
+    answer for an earlier transfer of the same path or key (a file that grew is uploaded
+    as its old prefix and reported as success)."""
+    n = 0
+    for f in ctx.p.all_functions():
+        if f.module.name == 'crt':
+            continue
+        why = None
+        for c, r in q.calls_in(ctx, f):
+            d = dotted(c.func) or ''
+            if r.kind == 'client':
+                why = f'S3 {r.ext}'
+            elif d.startswith(('os.', 'time.', 'shutil.', 'stat.')) or d in ('open', 'rename_file', 'fallocate'):
+                why = d
+            elif isinstance(c.func, ast.Attribute) and c.func.attr in ('read', 'seek', 'tell', 'readinto', 'write', 'truncate', 'get_file_size'):
+                why = '.' + c.func.attr
+            if why:
+                break
+        if not why:
+            continue
+        n += 1
+        memo = _memo_decorators(f.node)
+        ctx.ob(f, f'{f.qualname} reads {why}: not memoised', not memo,
+               f'{memo} caches the answer per argument tuple: a later transfer of the same path / key gets the size or bytes of an earlier one')
+    # wrappers applied by assignment: name = lru_cache(...)(function)
+    for m in ctx.p.modules.values():
+        for x in ast.walk(m.tree):
+            curried = isinstance(x, ast.Call) and isinstance(x.func, ast.Call) and (dotted(x.func.func) or '').split('.')[-1] in MEMO
+            direct = isinstance(x, ast.Call) and (dotted(x.func) or '').split('.')[-1] in MEMO and len(x.args) == 1 and isinstance(x.args[0], (ast.Name, ast.Attribute))
+            if curried or direct:
+                tgt = x.args[0] if x.args else None
+                nm = (dotted(tgt) or '') if tgt is not None else ''
+                fx = next((g for g in ctx.p.all_functions() if g.module is m and g.name == nm.split('.')[-1]), None)
+                if fx is not None:
+                    reads = any((dotted(c.func) or '').startswith(('os.', 'time.')) or (dotted(c.func) or '') == 'open' or r.kind == 'client' for c, r in q.calls_in(ctx, fx))
+                    ctx.ob(fx, f'{norm(x)[:60]}', not reads, 'a function that reads the outside world is wrapped in a cache')
+    ctx.need(n >= 20, f'only {n} world-reading functions found')
